@@ -77,7 +77,8 @@ class CanDynamicSchema: public ICanSchema {
 
     private:
         std::optional<std::string> GetMsgName(std::uint16_t sid, const std::array<char,4> bus_name) {
-            std::string bus_name_str(bus_name.begin(), bus_name.end());
+            // the frame carries the bus name zero padded to four characters
+            std::string bus_name_str(bus_name.data(), strnlen(bus_name.data(), bus_name.size()));
 
             auto impls = dynamic_schema_.GetImpls();
             for (const auto& impl: impls) {
